@@ -176,13 +176,17 @@ def run(workdir, args, env_extra=None, timeout=300, exe=None, prefix=None, cpu_l
             import resource
             resource.setrlimit(resource.RLIMIT_CPU, (int(cpu_limit), int(cpu_limit) + 5))
 
+    import resource as _res
+    ru0 = _res.getrusage(_res.RUSAGE_CHILDREN)
     try:
         p = subprocess.run(cmd, cwd=workdir, env=env, stdout=subprocess.PIPE,
                            stderr=subprocess.STDOUT, timeout=timeout, preexec_fn=limits)
         out = p.stdout.decode("utf-8", "replace")
         cpu = p.returncode in (-24, -9) and bool(cpu_limit)  # SIGXCPU (then SIGKILL)
+        ru1 = _res.getrusage(_res.RUSAGE_CHILDREN)
         return {"rc": p.returncode, "out": out, "wall": time.time() - t0, "timeout": False,
-                "cpu_exceeded": cpu}
+                "cpu_exceeded": cpu,
+                "cpu_s": (ru1.ru_utime + ru1.ru_stime) - (ru0.ru_utime + ru0.ru_stime)}
     except subprocess.TimeoutExpired as e:
         out = (e.stdout or b"").decode("utf-8", "replace")
         return {"rc": None, "out": out, "wall": time.time() - t0, "timeout": True,
